@@ -740,6 +740,43 @@ func (c *e5Ctx) refine(w *world, iff *ssa.If, taken bool) bool {
 	return true
 }
 
+// selectIndexTested: some branch of the function depends on whether arm k of sel was taken.
+func selectIndexTested(sel *ssa.Select, k int) bool {
+	if sel.Referrers() == nil {
+		return false
+	}
+	for _, ref := range *sel.Referrers() {
+		ex, ok := ref.(*ssa.Extract)
+		if !ok || ex.Index != 0 || ex.Referrers() == nil {
+			continue
+		}
+		for _, r2 := range *ex.Referrers() {
+			bo, ok := r2.(*ssa.BinOp)
+			if !ok || bo.Referrers() == nil {
+				continue
+			}
+			kk, isC := ConstInt(bo.Y)
+			if !isC {
+				kk, isC = ConstInt(bo.X)
+			}
+			if !isC {
+				return true // compared with something we cannot read: assume tested
+			}
+			for _, r3 := range *bo.Referrers() {
+				if _, isIf := r3.(*ssa.If); isIf {
+					// any tested arm index partitions the outcomes; for a select with default
+					// (non-blocking) a test of another arm does not tell whether k was taken,
+					// but every arm that has a body is tested, so an untested k has no body
+					if int(kk) == k {
+						return true
+					}
+				}
+			}
+		}
+	}
+	return false
+}
+
 // consumeValue: a value (message or local aggregate holding messages) is handed off.
 func (c *e5Ctx) consumeValue(w *world, v ssa.Value, in ssa.Instruction, what string) {
 	v = stripCast(v)
@@ -847,6 +884,14 @@ func (c *e5Ctx) transfer(w *world, ins ssa.Instruction) bool {
 		return true
 	case *ssa.Send:
 		c.consumeValue(w, x.X, ins, "send on "+Desc(x.Chan))
+	case *ssa.Select:
+		// a send arm whose outcome nothing tests (`select { case q <- m: default: }` with both
+		// bodies empty compiles to no branch): from here on the message may be in the queue
+		for k, st := range x.States {
+			if st.Dir == types.SendOnly && !selectIndexTested(x, k) {
+				c.consumeValue(w, st.Send, ins, "possible send on "+Desc(st.Chan)+" (the select's outcome is not tested)")
+			}
+		}
 	case *ssa.Go:
 		for _, a := range x.Call.Args {
 			if isMsgPtr(a.Type()) {
